@@ -114,7 +114,7 @@ def cargo_env():
             "CONFIG_SITE": os.path.join(HARNESS, "gmp", "config.site"),
             "GMP_MPFR_SYS_CACHE": os.path.join(CACHE, "gmp")}
 
-def build_harness(cl03=False, timeout=1800):
+def build_harness(cl03=True, timeout=1800):
     with Lock("cargo"):
         lock = os.path.join(HARNESS, "Cargo.lock")
         if not os.path.exists(lock):
@@ -128,7 +128,7 @@ def build_model(timeout=900):
     """Extract the model (coq/Extract.v) and build the OCaml driver; cached on the extracted text."""
     with Lock("ocaml"):
         gen = os.path.join(OCAML_SRC, "gen"); os.makedirs(gen, exist_ok=True); os.makedirs(OCAML_BUILD, exist_ok=True)
-        ok, out = coq_make(["Model/RealEnv.vo", "Generated/Consts.vo"])
+        ok, out = coq_make(["Model/RealEnv.vo", "Generated/Consts.vo", "Model/ClOps.vo", "Generated/ClConsts.vo"])
         if not ok: return False, out
         qs = []
         for d in ("Base", "Hash", "Model", "Generated"):
@@ -175,7 +175,14 @@ class Result:
             else: toks.append(p)
         self.toks = toks
     def core(self):
-        return " ".join([self.status] + self.toks)
+        # JSON documents (CL03 proofs) are compared in their flat integer form
+        from . import clj
+        return " ".join([self.status] + [clj.flat_tok(clj.untok(t)) if t[:1] == "J" and len(t) > 1 else t for t in self.toks])
+    def json(self, i):
+        from . import clj
+        return clj.untok(self.toks[i])
+    def z(self, i): return int(self.toks[i])
+    def zl(self, i): return [int(x) for x in self.toks[i].split(",")[1:]]
     def b(self, i):
         t = self.toks[i]; return b"" if t == "-" else bytes.fromhex(t)
 
